@@ -149,4 +149,89 @@ theorem adjustLoop_shape (t : Table) (e : Extras) (fuel : Nat) (g : GitCommit) :
 theorem Table.get?_head (t : Table) (g : GitCommit) (e : Extras) : Table.get? ((g, e) :: t) g = some e := by
   simp [Table.get?]
 
+/-! ### the fuel of the adjustment loop suffices -/
+
+theorem filter_length_le_of_imp {α} (p q : α → Bool) (l : List α) (h : ∀ x, q x = true → p x = true) :
+    (l.filter q).length ≤ (l.filter p).length := by
+  induction l with
+  | nil => simp
+  | cons a r ih =>
+    by_cases hq : q a = true
+    · simp [hq, h a hq]; exact ih
+    · by_cases hp : p a = true
+      · simp [hq, hp]; omega
+      · simp [hq, hp]; exact ih
+
+theorem filter_length_lt_of_imp {α} (p q : α → Bool) (l : List α) (h : ∀ x, q x = true → p x = true)
+    (x : α) (hx : x ∈ l) (hpx : p x = true) (hqx : q x = false) :
+    (l.filter q).length < (l.filter p).length := by
+  induction l with
+  | nil => cases hx
+  | cons a r ih =>
+    rcases List.mem_cons.mp hx with rfl | hm
+    · have := filter_length_le_of_imp p q r h
+      simp [hpx, hqx]; omega
+    · have := ih hm
+      by_cases hq : q a = true
+      · simp [hq, h a hq]; exact this
+      · by_cases hp : p a = true
+        · simp [hq, hp]; omega
+        · simp [hq, hp]; exact this
+
+/-- forget the committer second -/
+def normSec (g : GitCommit) : GitCommit := { g with committer := { g.committer with seconds := 0 } }
+
+def belowCount (t : Table) (g : GitCommit) : Nat :=
+  (t.filter fun x => decide (normSec x.1 = normSec g) && decide (x.1.committer.seconds ≤ g.committer.seconds)).length
+
+theorem Table.get?_some_mem (t : Table) (g : GitCommit) (e : Extras) (h : t.get? g = some e) : (g, e) ∈ t := by
+  unfold Table.get? at h
+  cases hf : t.find? (fun x => decide (x.1 = g)) with
+  | none => simp [hf] at h
+  | some x =>
+    simp [hf] at h
+    have hm := List.mem_of_find?_eq_some hf
+    have hp := List.find?_some hf
+    simp at hp
+    obtain ⟨a, b⟩ := x
+    simp at hp h
+    subst hp h
+    exact hm
+
+/-- the fuel of `adjustLoop` suffices: the loop stops on a record that is either new to the table
+or already associated with the very same extras -/
+theorem adjustLoop_terminates (t : Table) (e : Extras) (fuel : Nat) (g : GitCommit)
+    (hf : belowCount t g < fuel) :
+    t.get? (adjustLoop t e fuel g) = none ∨ t.get? (adjustLoop t e fuel g) = some e := by
+  induction fuel generalizing g with
+  | zero => omega
+  | succ n ih =>
+    simp only [adjustLoop]
+    cases hget : t.get? g with
+    | none => simp [hget]
+    | some e' =>
+      show (t.get? (if e' ≠ e then adjustLoop t e n { g with committer := { g.committer with seconds := g.committer.seconds - 1 } } else g) = none ∨
+        t.get? (if e' ≠ e then adjustLoop t e n { g with committer := { g.committer with seconds := g.committer.seconds - 1 } } else g) = some e)
+      by_cases hne : e' ≠ e
+      · rw [if_pos hne]
+        apply ih
+        have hm := Table.get?_some_mem t g e' hget
+        have : belowCount t { g with committer := { g.committer with seconds := g.committer.seconds - 1 } } < belowCount t g := by
+          unfold belowCount
+          apply filter_length_lt_of_imp _ _ t _ (g, e') hm
+          · simp
+          · simp [normSec]; omega
+          · intro x hx
+            simp only [normSec, Bool.and_eq_true, decide_eq_true_eq] at hx ⊢
+            exact ⟨hx.1, by have := hx.2; omega⟩
+        omega
+      · have he : e' = e := by simpa using hne
+        rw [if_neg hne, hget, he]; exact Or.inr rfl
+
+theorem adjustLoop_fuel_suffices (t : Table) (e : Extras) (g : GitCommit) :
+    t.get? (adjustLoop t e (t.length + 1) g) = none ∨ t.get? (adjustLoop t e (t.length + 1) g) = some e := by
+  apply adjustLoop_terminates
+  have : belowCount t g ≤ t.length := List.length_filter_le _ _
+  omega
+
 end JjModel.GitBackend
